@@ -30,29 +30,18 @@ from core import REPO, Counter, VERIF
 import scanpipe
 from scanpipe import T, P
 
-# Genuine defects of the unchanged tree found by this check, reported to the integrator; each is
-# routed through ctx.report_failure with exactly this key (any other failure is still a VIOLATION).
-PENDING_FINDINGS = {
-    'gen:varargs:skipped-parameter':
-        "a varargs function whose '...' parameter is annotated (skip) stays introspectable and is "
-        "written with <varargs/>: _introspectable_param_analysis returns on node.skip before the "
-        "Varargs test and _type_is_introspectable accepts the fundamental '<varargs>' "
-        "(replay: void foo_v (int x, ...); /** foo_v: @x: an int @...: (skip) */)",
-    'gen:shadowed-by-not-mutual:rename-to-chain':
-        "a chain of (rename-to) annotations (c renames to b, b renames to a) processed with c first leaves b both "
-        "shadowing a and shadowed by c; the writer emits only shadowed-by for b, so a's shadowed-by=\"b\" has no "
-        "shadows=\"a\" counterpart (_apply_annotation_rename_to checks the target's shadow state, not the node's)",
-    'gen:get-property-mismatch:several-getter-candidates':
-        "a boolean property 'active' with methods get_active and is_active: _pair_property_accessors sets "
-        "glib:get-property=\"active\" on BOTH methods but the property names only getter=\"get_active\"",
-    'gen:field-callback-non-introspectable:skip-propagated-callback':
-        "a record field holding an anonymous callback stays introspectable although the callback is written with "
-        "introspectable=\"0\": _propagate_callable_skips set the callback's skip (one of its parameter types is a "
-        "skipped node) and _introspectable_pass3 only looks at anonymous_node.introspectable, not at .skip",
-    'shipped:gir/freetype2-2.0.gir:/repository/namespace[freetype2]/alias[Int32]/type[int32]:unresolved-reference':
-        "gir/freetype2-2.0.gir: <alias name=\"Int32\"> targets <type name=\"int32\"/>, which is neither a "
-        "fundamental (ast.type_names / girparser.c basic_types) nor defined in the namespace (should be gint32)",
-}
+# Genuine defects of the unchanged tree found by this check and not (yet) repaired; each is routed
+# through ctx.report_failure with exactly this key (any other failure is still a VIOLATION).
+#
+# Empty: the five findings this check produced were all repaired in /repo and pass without
+# suppression (re-validated against HEAD through the corpus witnesses, which run first):
+#   gen:varargs:skipped-parameter                                   1110ea5  corpus varargs-skip
+#   gen:field-callback-non-introspectable:skip-propagated-callback  efccda4  corpus field-callback-skip-propagated
+#   gen:shadowed-by-not-mutual:rename-to-chain                      9b2e314  corpus rename-to-chain
+#   gen:get-property-mismatch:several-getter-candidates             a10e011  corpus class-two-getter-candidates
+#   shipped:gir/freetype2-2.0.gir:...alias[Int32]...                e90adbd  (shipped files are all judged)
+# The keys above are still what `classify` produces should one of them come back.
+PENDING_FINDINGS = {}
 
 EXEMPT = ('GLib.DestroyNotify', 'Gio.AsyncReadyCallback')
 
